@@ -43,6 +43,10 @@ def run(tier, runner):
     progs = matrix.programs(runner, pts)
     r_ret = config.returns(progs)
     r_ord = config.reloc_order(progs)
+    r_adv = config.advance(progs)
+    r_emu = config.emul_effect(progs)
+    r_adv.require(4, 'emulations returning an advanced iterator')
+    r_emu.require(8, 'emulated algorithm overloads')
     ob = lifetime.obligations(progs)
     r_raw = ob['RAWTAIL']
     nonreloc = [(p, p.meta['E']) for p in progs if p.meta['elem'] not in gen.RELOC and p.meta['elem'] not in gen.TRIV_COPY]
@@ -65,13 +69,13 @@ def run(tier, runner):
     r_ord.require(3, 'generic relocate implementations and MemMove modes')
     r_raw.require(10, 'constructing loops / algorithms')
     return {
-        'results': [r_ret, r_ord, r_raw, r_mem, r_eff] + r_w,
+        'results': [r_ret, r_ord, r_adv, r_emu, r_raw, r_mem, r_eff] + r_w,
         'explanation': 'Per language standard (different implementations are selected by the #if ladders): RETURN - every non-void function returns on every '
                        'path; SIG - result types and iterator advances as the standard algorithms (compile-time); CLEANUP (RAWTAIL on memory.hpp) - every '
                        'construct loop is inside a try whose handler destroys [dest,current) and rethrows, so partial output is destroyed on throw; '
                        'RELOC-ORDER - the generic relocate move-constructs every destination before destroying any source (sources stay alive when a '
                        'constructor throws), bulk memcpy/memmove only for raw pointers; MEMOP - byte-copy modes only for types whose trait allows; '
-                       'EFFECT-DIFF - where two standards select different source for one function both have the same effect signature.',
+                       'EFFECT-DIFF - where two standards select different source for one function both have the same effect signature; ADVANCE - a returned iterator that is a bare parameter was advanced by this function (iterator advances as the standard algorithms); EMUL-EFFECT - every overload of an emulation has the effect class of the standard algorithm (value-construct writes every element, also for trivial types).',
         'assumptions': ['value equality of the constructed objects is not decided'],
         'trusted': ['libstdc++ 12 std::uninitialized_* (selected from C++17 on)', 'compile-time evaluation by clang/g++', 'the helper-role table'],
         'coverage': {'standards': stds},
